@@ -120,6 +120,7 @@ class Probe:
         self.slots = {}
         self.parent = {}     # interface handle pointer -> system handle pointer it was opened from
         self.null = None     # name of the pointer parameter passed as NULL in the current call
+        self.worker = None   # second thread (ops prefixed `t2:`)
         # library initialised?  (tracked from the return codes of GCInitLib / GCCloseLib; a freed
         # handle variable is passed on only while the library is NOT initialised, where the entry
         # points return before looking at any argument)
@@ -180,6 +181,24 @@ class Probe:
 
     # ---- one op --------------------------------------------------------------
     def run(self, op):
+        """`t2:<op>`: make the call on a second, persistent thread of this process (LAST_ERROR is
+        thread-local)"""
+        if op.startswith("t2:"):
+            import queue
+            import threading
+            if self.worker is None:
+                self.jobs, self.answers = queue.Queue(), queue.Queue()
+
+                def loop():
+                    while True:
+                        self.answers.put(self.run1(self.jobs.get()))
+                self.worker = threading.Thread(target=loop, daemon=True)
+                self.worker.start()
+            self.jobs.put(op[3:])
+            return self.answers.get()
+        return self.run1(op)
+
+    def run1(self, op):
         t = op.split()
         self.null = None
         if t[0].startswith("np:"):
